@@ -115,6 +115,7 @@ theorem skipLoop_progress (p : Pump) (inp : List RawItem) :
   all_goals first
     | exact ⟨[], rfl, fun _ => rfl⟩
     | exact ⟨[_], rfl, fun h => nomatch h⟩
+    | (rename_i hb; rw [hb]; exact ⟨[_], rfl, fun h => nomatch h⟩)
     | (rename_i ih; obtain ⟨c, h1, -⟩ := ih; exact ⟨_ :: c, congrArg (_ :: ·) h1, fun h => nomatch h⟩)
 
 /-! ### `capture_node`, scalar branch -/
